@@ -178,7 +178,7 @@ def fingerprint(m, x, deep=True):
     """live part: read-only attribute reads.  probe part: on a deep copy, global RNG saved/restored."""
     torch, _ = T()
     sd = m.state_dict()
-    pnames = {k for k, _ in m.named_parameters()}
+    pnames = {k for k, _ in m.named_parameters(remove_duplicate=False)}   # shared quantizers appear under every alias
     w, s, lv, fl = flags(m)
     fp = {
         'params': hj([(k, th(v)) for k, v in sd.items() if k in pnames]),
